@@ -246,3 +246,15 @@ class SVRPEnv(RL4COEnvBase):
             ).all(), "Skill level not met"
             start = each[1] + 1  # skip the depot
             tech += 1
+
+        # the loop above only covers customers in front of a depot visit: also check the route
+        # after the last depot visit of each instance (a tour need not end at the depot)
+        for b in range(batch_size):
+            depot_visits = torch.nonzero(actions[b] == 0).flatten()
+            start = int(depot_visits[-1]) + 1 if depot_visits.numel() > 0 else 0
+            if start < actions.size(-1):
+                tech = depot_visits.numel()
+                assert tech < td["techs"].size(-2), "More routes than technicians"
+                assert (
+                    skills_ordered[b, start:] <= td["techs"][b, tech]
+                ).all(), "Skill level not met"
